@@ -16,7 +16,8 @@ REQUIRED_THEOREMS = ["Gv.Props.C01." + n for n in [
     # names stay pairwise distinct unless the caller edits names
     "step_names_nodup", "run_names_nodup",
     # refinement: Go-shaped container = plain list reference model, all 38 operations, all histories
-    "step_refines", "run_refines", "compress_empty_unchanged", "good_of_empty_bag", "good_of_empty_align", "obs_byName", "obs_idByName", "obs_length"]]
+    "step_refines", "run_refines", "diffWithFirst_agrees_with_row_model", "replaceMatchChars_agrees_with_row_model",
+    "step_diffFirst_is_row_model", "compress_empty_unchanged", "good_of_empty_bag", "good_of_empty_align", "obs_byName", "obs_idByName", "obs_length"]]
 LEVEL_TEXT = ("Lean theorems, all by induction over operation histories of any length and for arbitrary arguments: "
               "(1) refinement `step_refines` / `run_refines`: for each of the 38 operations of the history language (add under the "
               "three duplicate-name policies, ignore, clear, append, concat, rename, appendId, cleanNames, trimNames, trimAuto, sort, "
@@ -33,7 +34,7 @@ LEVEL_TEXT = ("Lean theorems, all by induction over operation histories of any l
               "Translate of an alignment with L mod 3 != 2 - `translate_three_frames_not_rect` is the kernel-checked violation - and a "
               "Replace/Concat that itself returned an error); (3) `step_names_nodup` / `run_names_nodup`: names stay pairwise distinct "
               "under every operation other than the caller's own name edits (Unalign included: `unalign_rows_of_distinct_names` - the new set "
-              "shows exactly the degapped rows); (4) the weak representation invariant for all operations "
+              "shows exactly the degapped rows); (3b) `diffWithFirst_agrees_with_row_model` / `replaceMatchChars_agrees_with_row_model`: on every rectangular alignment the container-level DiffWithFirst / ReplaceMatchChars (row pointers, cached length, in-place writes) never panic and show exactly the rows the row-level models of property C04 (`Model.diffWithFirst`, `Model.replaceMatchChars`) compute; (4) the weak representation invariant for all operations "
               "including name collisions made by the caller (`step_inv`/`run_inv`), agreement of the by-name access paths, rejection "
               "of a wrong-length sequence with the state unchanged. Tied to /repo by a differential correspondence on random histories "
               "that compares the full observation vector (iteration, by-index, by-name through the index and by linear scan, "
